@@ -6,8 +6,16 @@
 (A)  every TLC-generated behaviour is executed on a real BitmapAccumulator (component level).
 (B)  a real AutomatedTesting chain (spends, forks, reorganisations, read-only rewinds, restarts, blocks
      committing to a wrong bitmap) is recorded and validated against spec/trace/BitmapTrace.tla.
+(B') the same events recorded at the txhashset level (h_bitmap direct): the unit of work of
+     pipe::process_block - txhashset::extending { Extension::rewind to the fork point, apply_block for the
+     fork blocks and the block, force_rollback for a block that does not win } - driven on a real
+     TxHashSet + ChainStore with dummy range proofs (Block::validate is not part of that level), so that
+     histories over three and more 1024-bit chunks fit in the quick tier: late spends in old chunks,
+     2-3 block rewinds where a block other than the earliest one spent in an old chunk, rolled-back
+     losing-fork blocks that differ from the committed state in an old chunk followed by a block that
+     leaves that chunk alone, restarts. Validated against the same BitmapTrace.tla.
 """
-import json, os, shutil
+import json, os, shutil, time
 import vlib
 from vlib import Report, ToolError, log
 
@@ -70,11 +78,11 @@ def validate_trace(path, what, coverage=False):
     raise ToolError("BitmapTrace failed without a verdict (%s)" % what)
 
 
-def classify(ev):
+def classify(ev, level="chain"):
     """Narrow signature of the first event the trace specification refused."""
     k = ev.get("k", "?")
     what = str(ev.get("what", "")).split(":")[0]
-    base = "bitmap:chain:%s%s" % (k, (":" + what) if what else "")
+    base = "bitmap:%s:%s%s" % (level, k, (":" + what) if what else "")
     if ev.get("res") is not None and ev.get("res") != ev.get("exp"):
         return base + ":result:%s->%s" % (ev.get("exp"), ev.get("res"))
     if ev.get("obs"):
@@ -91,49 +99,95 @@ def classify(ev):
     return base + ":refused_by_trace_spec"
 
 
-def record_chain(wd, roots_path, outputs, seed, tag="trace"):
+def record_chain(wd, roots_path, outputs, seed, tag="trace", mode="record"):
     tp = os.path.join(wd, "%s.ndjson" % tag)
-    p = vlib.harness(["bitmap", "record", "--roots", roots_path, "--out", tp, "--work", os.path.join(wd, "chain_" + tag),
+    p = vlib.harness(["bitmap", mode, "--roots", roots_path, "--out", tp, "--work", os.path.join(wd, "chain_" + tag),
                       "--outputs", outputs, "--seed", seed], timeout=2400)
     info = json.loads(p.stdout.strip().splitlines()[-1])
     return tp, info, vlib.read_ndjson(tp)
 
 
-def check_chain(rep, wd, roots_path, outputs, seed, coverage=True):
-    """Record one chain run and decide it. Returns (info, events, tlc result or None)."""
-    tp, info, events = record_chain(wd, roots_path, outputs, seed)
-    case = {"kind": "chain", "outputs": outputs, "seed": seed}
+def check_chain(rep, wd, roots_path, outputs, seed, coverage=True, mode="record"):
+    """Record one chain run and decide it. Returns (info, events, tlc result or None).
+    mode "record": a real Chain (process_block); mode "direct": the txhashset level, `seed` may be a list of
+    seeds whose recordings are concatenated (every recording starts with an Init event)."""
+    direct = mode == "direct"
+    level = "txhashset" if direct else "chain"
+    tag = "dtrace" if direct else "trace"
+    if direct:
+        seeds = seed if isinstance(seed, list) else [seed]
+        events, infos = [], []
+        outs = outputs if isinstance(outputs, list) else [outputs] * len(seeds)
+        for n, sd in enumerate(seeds):
+            _, inf, evs = record_chain(wd, roots_path, outs[n], sd, tag="%s_%d" % (tag, n), mode="direct")
+            inf["seed"] = sd
+            infos.append(inf)
+            events += evs
+        tp = os.path.join(wd, tag + ".ndjson")
+        vlib.write_ndjson(tp, events)
+        info = {"mode": "direct", "recordings": infos, "events": len(events),
+                "outputs": [i["outputs"] for i in infos], "blocks": sum(i["blocks"] for i in infos),
+                "max_chunks": max(i["max_chunks"] for i in infos),
+                "chunks_with_spends": sorted(set(c for i in infos for c in i["chunks_with_spends"])), "stats": {}}
+        for i in infos:
+            for k, v in i["stats"].items():
+                info["stats"][k] = info["stats"].get(k, 0) + v
+        seed = seeds
+    else:
+        tp, info, events = record_chain(wd, roots_path, outputs, seed)
+    case = {"kind": "chain", "mode": mode, "outputs": outputs, "seed": seed}
+    keep_name = "C15_%s_%s.ndjson" % (tag, "_".join(map(str, seed)) if isinstance(seed, list) else seed)
     # a delivery with the wrong result class ends the recording: that event is the verdict
     for n, ev in enumerate(events):
         if ev["k"] == "Result":
             # an earlier divergence of the commitment is the narrower verdict: decide the prefix first
             if n > 0:
-                pp = os.path.join(wd, "trace_prefix.ndjson")
+                pp = os.path.join(wd, tag + "_prefix.ndjson")
                 vlib.write_ndjson(pp, events[:n])
                 okp, dp = validate_trace(pp, "prefix")
                 if not okp:
                     evp = events[dp - 1] if dp and dp - 1 < n else {"k": "eof"}
-                    keep = os.path.join(vlib.OUT, "replays", "C15_trace_%d.ndjson" % seed)
+                    keep = os.path.join(vlib.OUT, "replays", keep_name)
                     os.makedirs(os.path.dirname(keep), exist_ok=True)
                     shutil.copy(pp, keep)
                     small = {k: v for k, v in evp.items() if k not in ("leaf", "fs", "accbits")}
-                    rep.violation(classify(evp), dict(case, trace=keep, event_index=dp, event=small), json.dumps(small)[:600])
+                    rep.violation(classify(evp, level), dict(case, trace=keep, event_index=dp, event=small), json.dumps(small)[:600])
                     return info, events, None
             what = str(ev.get("what", ""))
-            sig = "bitmap:chain:result:%s:%s->%s" % (what, ev.get("exp"), str(ev.get("res"))[:40])
+            sig = "bitmap:%s:result:%s:%s->%s" % (level, what, ev.get("exp"), str(ev.get("res"))[:40])
             rep.violation(sig, dict(case, event=ev), json.dumps(ev)[:600])
             return info, events, None
-    ok, r = validate_trace(tp, "record", coverage=coverage)
+    ok, r = validate_trace(tp, mode, coverage=coverage)
     if not ok:
         d = r
         ev = events[d - 1] if d and d - 1 < len(events) else {"k": "eof"}
-        keep = os.path.join(vlib.OUT, "replays", "C15_trace_%d.ndjson" % seed)
+        keep = os.path.join(vlib.OUT, "replays", keep_name)
         os.makedirs(os.path.dirname(keep), exist_ok=True)
         shutil.copy(tp, keep)
         small = {k: v for k, v in ev.items() if k not in ("leaf", "fs", "accbits")}
-        rep.violation(classify(ev), dict(case, trace=keep, event_index=d, event=small), json.dumps(small)[:600])
+        rep.violation(classify(ev, level), dict(case, trace=keep, event_index=d, event=small), json.dumps(small)[:600])
         return info, events, None
     return info, events, r
+
+
+# shapes every txhashset-level run must reach (counted by the harness from the model side)
+DIRECT_NEED = {
+    "late_spend_in_chunk0": 5,                       # a block late in the chain spends in chunk 0
+    "multi_rewind_nonearliest_old_chunk": 3,         # rewind of >= 2 blocks, a non-earliest one spent in an older chunk
+    "reorg_multi_rewind_nonearliest_old_chunk": 1,   # ... as a committed reorganisation
+    "losing_fork_differs_in_old_chunk": 3,           # rolled-back fork state differs from the committed one in an old chunk
+    "apply_after_losing_fork_skips_its_chunk": 2,    # ... and the next block leaves that chunk alone
+    "reorg_rewind_crosses_chunk_boundary": 1, "probe_crosses_chunk_boundary": 2,
+    "refused_blocks": 2,                             # an extension that fails after touching the accumulator
+    "reorgs": 3, "ev_Reopen": 3, "ev_Probe": 20, "ev_Stay": 5, "ev_Rewind": 3,
+}
+
+
+def direct_params(thorough, seed):
+    """(outputs per recording, seeds): quick = one history over four chunks and one over three."""
+    if thorough:
+        return [4300, 3300, 5200, 2300], [seed * 7 + 1, seed * 7 + 2, seed * 7 + 3, seed * 7 + 4]
+    return [3200, 2200], [seed * 7 + 1, seed * 7 + 2]
 
 
 def run(tier, replay):
@@ -150,7 +204,7 @@ def run(tier, replay):
         roots_path = os.path.join(wd, "roots.json")
         json.dump(roots, open(roots_path, "w"))
         if case.get("kind") == "chain":
-            check_chain(rep, wd, roots_path, case["outputs"], case["seed"], coverage=False)
+            check_chain(rep, wd, roots_path, case["outputs"], case["seed"], coverage=False, mode=case.get("mode", "record"))
         else:
             res = replay_cases(wd, [case["behaviour"]], roots_path, "replay")
             for mm in res[0]["mismatches"]:
@@ -165,6 +219,15 @@ def run(tier, replay):
         json.dump(roots, open(roots_path, "w"))
         info, events, tr = check_chain(rep, wd, roots_path, 2150 if thorough else 300, seed, coverage=False)
         rep.coverage = {"states": 0, "transitions": 0, "traces_validated_against_impl": 1, "samples": [info], "dev_mode": "chain"}
+        return rep.finish()
+
+    if os.environ.get("VERIF_C15_DEV") == "direct":
+        _, roots, _ = emit("mc/MC_Bitmap_seq", "roots", 600)
+        roots_path = os.path.join(wd, "roots.json")
+        json.dump(roots, open(roots_path, "w"))
+        n_out, seeds = direct_params(thorough, seed)
+        info, events, tr = check_chain(rep, wd, roots_path, n_out, seeds, coverage=False, mode="direct")
+        rep.coverage = {"states": 0, "transitions": 0, "traces_validated_against_impl": 1, "samples": [info], "dev_mode": "direct"}
         return rep.finish()
 
     # ---------------------------------------------------------------- (M) the design, exhaustively
@@ -257,7 +320,10 @@ def run(tier, replay):
 
     # ---------------------------------------------------------------- (B) the chain
     outputs = 2150 if thorough else 300
+    t0 = time.time()
     info, events, tr = check_chain(rep, wd, roots_path, outputs, seed)
+    log("chain (B): %d outputs, %d blocks, %d events recorded and validated in %.0fs" % (info["outputs"], info["blocks"], info["events"], time.time() - t0))
+    t0 = time.time()
     tp = os.path.join(wd, "trace.ndjson")
     trace_actions = {}
     selftests = []
@@ -298,10 +364,57 @@ def run(tier, replay):
                 raise ToolError("selftest: a dropped spend was not refused")
             selftests.append("dropped spend (event %d) refused at event %s" % (j + 1, d3))
 
+    # ---------------------------------------------------------------- (B') the txhashset level, several chunks
+    log("chain (B) selftests: %.0fs" % (time.time() - t0))
+    t0 = time.time()
+    n_out, dseeds = direct_params(thorough, seed)
+    dinfo, devents, dtr = check_chain(rep, wd, roots_path, n_out, dseeds, mode="direct")
+    log("txhashset level (B'): outputs %s, %d blocks, %d events over %d chunks recorded and validated in %.0fs" % (
+        dinfo["outputs"], dinfo["blocks"], dinfo["events"], dinfo["max_chunks"], time.time() - t0))
+    t0 = time.time()
+    dtrace_actions = {}
+    if dtr is not None:
+        dtrace_actions = {k: v[1] for k, v in dtr.action_counts().items()}
+        dst = dinfo["stats"]
+        for k, n in DIRECT_NEED.items():
+            if dst.get(k, 0) < n:
+                raise ToolError("txhashset-level scenario did not reach %s >= %d (got %d)" % (k, n, dst.get(k, 0)))
+        if dinfo["max_chunks"] < 3 or not {0, 1}.issubset(set(dinfo["chunks_with_spends"])):
+            raise ToolError("txhashset-level scenario did not span three chunks with spends in old chunks")
+        for a in ("TApply", "TRewind", "TProbe", "TReopen", "TStay", "TStart"):
+            if dtrace_actions.get(a, 0) == 0:
+                raise ToolError("trace action %s never taken (txhashset level)" % a)
+        # anti-vacuity of (B'): the committed root logged after a rolled-back losing fork block, corrupted
+        stays = [i for i, ev in enumerate(devents) if ev["k"] == "Stay" and ev.get("obs") and str(ev.get("what", "")).startswith("losing")]
+        if stays:
+            i = stays[min(2, len(stays) - 1)]      # an early one: the prefix up to it is validated again
+            ev4 = json.loads(json.dumps(devents[:i + 2]))
+            ev4[i]["root_real"] = "00" * 32
+            p4 = os.path.join(wd, "dtrace_bad_root.ndjson")
+            vlib.write_ndjson(p4, ev4)
+            ok4, d4 = validate_trace(p4, "selftest direct root")
+            if ok4 or d4 != i + 1:
+                raise ToolError("selftest: corrupted root after a rolled-back fork not refused at its event (%s, %s)" % (ok4, d4))
+            selftests.append("txhashset level: corrupted root_real of a Stay refused at event %d" % d4)
+        # ... and an un-spend dropped from a multi-block read-only rewind
+        pr = [j for j, ev in enumerate(devents) if ev["k"] == "Probe" and ev.get("depth", 0) >= 2 and len(ev.get("respent", [])) >= 1
+              and ev["newsize"] > 1024 and min(ev["respent"]) < 1024]
+        if pr:
+            j = pr[min(2, len(pr) - 1)]
+            ev5 = json.loads(json.dumps(devents[:j + 2]))
+            ev5[j]["respent"] = ev5[j]["respent"][1:]
+            p5 = os.path.join(wd, "dtrace_bad_respent.ndjson")
+            vlib.write_ndjson(p5, ev5)
+            ok5, d5 = validate_trace(p5, "selftest direct respent")
+            if ok5 or d5 != j + 1:
+                raise ToolError("selftest: a dropped un-spend of a rewind was not refused at its event (%s, %s)" % (ok5, d5))
+            selftests.append("txhashset level: dropped un-spend of a %d-block rewind refused at event %d" % (devents[j]["depth"], d5))
+
+    log("txhashset level (B') selftests: %.0fs" % (time.time() - t0))
     sample_case = cases[len(cases) // 3]
     rep.coverage = {
         "states": states, "transitions": trans,
-        "traces_validated_against_impl": len(cases) + (1 if tr is not None else 0),
+        "traces_validated_against_impl": len(cases) + (1 if tr is not None else 0) + (len(dseeds) if dtr is not None else 0),
         "samples": [{"component_behaviour": sample_case},
                     {"chain_events": [{k: v for k, v in ev.items() if k not in ("leaf", "fs", "accbits")} for ev in events[1:4]]}],
         "exhaustive": True,
@@ -312,7 +425,8 @@ def run(tier, replay):
         "chunk_start_idx_deviations_from_spec": start_notes,
         "component_fact_last_leaf_spent_keeps_trailing_zero_chunk": witness,
         "chain": info, "trace_actions": trace_actions, "selftests": selftests,
-        "checker_cmd": "tlc mc/MC_Bitmap; h_bitmap replay; h_bitmap record; tlc trace/BitmapTrace",
+        "txhashset_level": dinfo, "txhashset_level_trace_actions": dtrace_actions,
+        "checker_cmd": "tlc mc/MC_Bitmap; h_bitmap replay; h_bitmap record; h_bitmap direct; tlc trace/BitmapTrace",
     }
     rep.assumptions = [
         "blake2b / hash_with_index used as an injective primitive (symbolic terms in the model)",
@@ -324,5 +438,9 @@ def run(tier, replay):
         "(every block has a coinbase output and cannot spend its own outputs); without it apply() keeps a trailing "
         "all-zero chunk that init() omits (design probe probe_nolast, reproduced on the real accumulator)",
         "chain level: AutomatedTesting parameters, SKIP_POW; leaf indices below 2^31",
+        "txhashset level (B'): the harness plays pipe::process_block's unit of work itself (fork point known to the "
+        "harness, extending { rewind, apply_block..., force_rollback unless more work }, head saved) with Mainnet block "
+        "weight, dummy range proofs / commitments and one repeated genuine kernel; Block::validate, kernel sums, "
+        "coinbase maturity and pipe.rs's own fork-point search are not part of that level (they are in (B))",
     ]
     return rep.finish()
